@@ -36,7 +36,8 @@ META = {
                "MASK / TMASK reported by read() exactly where the DiiA flag table (spec/memory_map.FLAGS) "
                "says the value supports them",
                "a few single-value reads and one read_all per bank twice in one process against independent "
-               "units (another last accessible location, another image)"],
+               "units (another last accessible location, another image)",
+               "read_all with a run of 9 (thorough 20) unimplemented locations before a value (all banks but 1)"],
     "stubs": ["isinstance/int/bytes/pow shims"],
     "outside": ["units that violate 9.10 other than by silence/garbling", "several disturbances at once",
                 "read_all with all values symbolic at once (product of per-value outcomes)"],
